@@ -740,6 +740,12 @@ func (m *Machine) safety(c *Config, kind string, goal Term, pos token.Pos) {
 	}
 	// safety obligations are labelled by enclosing function of the instruction (stable under line shifts)
 	label := c.top.fn.Name()
+	if m.cur.fc != nil && m.cur.fc.MayPanic != "" {
+		// panics of this function are turned into errors by the recovering entry points
+		// (obligations package/recovers:*); the local obligation is recorded as covered
+		m.emit(c, "recovered-"+kind, label, m.safetyProps, TTrue, site, "may panic ("+m.cur.fc.MayPanic+"); recovered at the decode entry points")
+		return
+	}
 	m.emit(c, kind, label, m.safetyProps, goal, site, "")
 }
 
@@ -823,13 +829,25 @@ func (m *Machine) step(c *Config, onReturn returnHandler) (*Config, []*Config) {
 		m.cur.paths++
 		return nil, nil
 	case *ssa.RunDefers:
+		// deferred calls run in LIFO order on the normal path; recover() yields nil there
+		if n := len(fr.defers); n > 0 {
+			d := fr.defers[n-1]
+			fr.defers = fr.defers[:n-1]
+			fr.ip-- // come back to rundefers for the remaining ones
+			return m.runDeferred(c, d)
+		}
 		return c, nil
 	case ssa.CallInstruction:
 		if _, isGo := x.(*ssa.Go); isGo {
 			m.unsup("go statement")
 		}
-		if _, isDefer := x.(*ssa.Defer); isDefer {
-			m.unsup("defer statement")
+		if d, isDefer := x.(*ssa.Defer); isDefer {
+			var args []Value
+			for _, a := range d.Call.Args {
+				args = append(args, m.operand(c, a))
+			}
+			fr.defers = append(fr.defers, deferred{ins: d, fn: m.operand(c, d.Call.Value), args: args})
+			return c, nil
 		}
 		return m.doCall(c, x)
 	case *ssa.Store:
@@ -1600,4 +1618,18 @@ func (m *Machine) fieldOfElem(st *State, el Term, p *PtrV, typ types.Type) Value
 	}
 	m.unsup("field %v of array element of sort %s", p.Path, el.Sort)
 	return nil
+}
+
+type deferred struct {
+	ins  *ssa.Defer
+	fn   Value
+	args []Value
+}
+
+func (m *Machine) runDeferred(c *Config, d deferred) (*Config, []*Config) {
+	fv, ok := d.fn.(*FuncV)
+	if !ok || fv.Fn == nil {
+		m.unsup("deferred call of a non-closure")
+	}
+	return m.inlineCall(c, d.ins, fv.Fn, d.args, fv.Bind)
 }
